@@ -459,6 +459,19 @@ def operators(ctx, lk):
             lv = it.run(fn, args)
             probs = []
             for lf in lv:
+                # the property speaks about degrees (and the compensation weight of a_fuzzy_equ_) in [0,1]: a path taken only for a
+                # value outside that interval (a clamp of such a value, say) is outside it
+                outside = False
+                for c_ in lf.pc:
+                    if isinstance(c_, alg.Cond) and c_.kind == 'fcmp':
+                        for v_ in args:
+                            ca, cb, r_ = sp.sympify(c_.a), sp.sympify(c_.b), c_.rel()
+                            if ca == v_ and cb.is_number and ((r_ in ('<',) and cb <= 0) or (r_ in ('>',) and cb >= 1)):
+                                outside = True
+                            if cb == v_ and ca.is_number and ((r_ in ('>',) and ca <= 0) or (r_ in ('<',) and ca >= 1)):
+                                outside = True
+                if outside:
+                    continue
                 w = resolve_minmax(want, lf.pc)
                 if w is None:
                     raise Unsupported('path %s does not decide the min/max of the documented formula' % (lf.pc,))
